@@ -19,7 +19,7 @@ from concurrent.futures import ThreadPoolExecutor
 from pathlib import Path
 
 from . import c04_gen as g
-from . import core, lib
+from . import c04_ladder, core, lib
 from .c04_truth import STUBS, FakeDocker, Scratch
 
 TRUSTED = [
@@ -82,6 +82,8 @@ def run(tier, seed, replay=None):
     rng = random.Random(seed)
     cfg = parse_config(g.CONFIG_TEXT)
     out = core.Outcome("C04")
+    # the ladder streams (harness/c04_ladder.py) run in forked worker processes next to the ground-truth runs
+    workers = c04_ladder.start(tier) if replay is None else None
     scratches = [Scratch() for _ in range(NWORK)]
     fake = FakeDocker()
     model = lib.Model()
@@ -307,7 +309,7 @@ def run(tier, seed, replay=None):
                 out.count("soup", toks[0])
 
         # ------------------------------------------------------------------ exact-plain and env-prefix oracles
-        if replay is None or replay.get("kind") in ("exact-plain", "env-prefix"):
+        if replay is None or (replay.get("kind") in ("exact-plain", "env-prefix") and "ladder_pair" not in replay):
             forms = [("time c", "time {}"), ("timeout N c", "timeout 5 {}"), ("timeout N.N c", "timeout 0.5 {}"), ("nice c", "nice {}"),
                      ("nice -n N c", "nice -n 5 {}"), ("nohup c", "nohup {}"), ("command c", "command {}"), ("command -- c", "command -- {}"),
                      ("nohup nice c", "nohup nice {}"), ("timeout N nohup command c", "timeout 5 nohup command {}")]
@@ -328,7 +330,16 @@ def run(tier, seed, replay=None):
                         out.count(kind, f"{label}:{a}")
                         if a != b:
                             violation(kind, label, whole, what=f"analyze({whole!r})={a} but analyze({c!r})={b}", form=f, inner=c)
+
+        # ------------------------------------------------------------------ the decision ladder: exhaustive token lists, metamorphic pairs
+        if replay is not None and replay.get("ladder_pair"):
+            c04_ladder.Streams(out, tier, an, cfg, cwd, model, xcheck, violation).replay(replay["ladder_pair"])
+        if workers is not None:
+            c04_ladder.merge(out, xcheck, workers)
+            workers = None
     finally:
+        if workers is not None:
+            workers[0].shutdown(cancel_futures=True)
         model.close()
         for s in scratches:
             s.close()
